@@ -308,10 +308,13 @@ class Verdict:
 
     def finish(self, level, coverage, assumptions, exhaustive=True):
         """Write evidence, print lines, return exit code."""
-        if self.unconfirmed:
+        if self.unconfirmed and not self.new:
             for v in self.unconfirmed[:5]:
                 print("ENGINE-ERROR: violation did not reproduce on replay: %s :: %s" % (v["sig"], v["detail"][:300]))
             return EXIT_ENGINE
+        for v in self.unconfirmed[:5]:
+            # other violations of this run did reproduce and are reported below; these are not counted
+            print("NOTE: not reproduced stand-alone, not counted: %s :: %s" % (v["sig"], v["detail"][:200]))
         for k in self.known:
             if k.get("status") == "open" and k["id"] in self.known_hit:
                 print("KNOWN-FINDING: property=%s %s" % (self.pid, k["what"]))
